@@ -108,6 +108,12 @@ def select_next_item(code: str, pos: int) -> SelectItemModel:
         if start < pos:
             return
 
+        if pending_property[0] and token_type != TokenType.PropertyValue:
+            # Name without value, like `@include x;`: it’s the next item
+            prop = pending_property[0]
+            result[0] = SelectItemModel(prop[0], prop[1], [(prop[0], prop[1])])
+            return False
+
         if token_type == TokenType.Selector:
             result[0] = SelectItemModel(start, end, [(start, end)])
             return False
@@ -132,12 +138,13 @@ def select_next_item(code: str, pos: int) -> SelectItemModel:
                 push_range(section.ranges, (r[0] + start, r[1] + start))
 
             return False
-        elif pending_property[0]:
-            prop = pending_property[0]
-            result[0] = SelectItemModel(prop[0], prop[1], [(prop[0], prop[1])])
-            return False
 
     scan(code, scan_callback)
+    if result[0] is None and pending_property[0]:
+        # Name without value at the very end: `@import "foo"`
+        prop = pending_property[0]
+        result[0] = SelectItemModel(prop[0], prop[1], [(prop[0], prop[1])])
+
     return result[0]
 
 
